@@ -95,4 +95,26 @@ theorem fit_store_abs (native sb : Bool) (o : WObj C L W) (c : C) (idx : List In
     simp [fit.store, absW, absRec, attr, _copy_sw, bind, Except.bind, pure, Except.pure]
   all_goals (cases sw <;> simp [_copy_sw, absRec, pure, Except.pure])
 
+/-! ## the native branch of `partial_fit` -/
+
+theorem xRows_eq (cfg : Cfg L W) (idx : List Int) :
+    xRows cfg.n idx = if xIndexOk cfg idx then .ok idx else .error .index := rfl
+
+set_option linter.unusedSimpArgs false in
+/-- **the translated native branch is `partialNative`**: on an object that holds the classifier to update (which the argument
+validation of `partial_fit` has established before: `NotFittedError` otherwise) it raises exactly when `self.X[add_idx]` does, and
+otherwise leaves attributes that stand for the state `Ska.IW.partialNative` returns; the stored training records are untouched. -/
+theorem native_abs (cfg : Cfg L W) (pfit : C → Data L W → C) (ub sb : Bool) (o : WObj C L W) (c : C)
+    (idx : List Int) (ay : List L) (aw : Option (List W))
+    (hc : (if ub then o.base_clf_ else o.clf_) = some c) :
+    (match partial_fit.native cfg.n pfit ub sb o idx ay aw with
+     | .ok o' => (absW o', (none : Option Err))
+     | .error e => (absW o, some e)) = partialNative cfg pfit (absW o) idx ay aw ub sb := by
+  obtain ⟨clf, i, yy, w, bc, bi, by', bw⟩ := o
+  unfold partial_fit.native partialNative
+  simp only [xRows_eq, absW]
+  by_cases hx : xIndexOk cfg idx = true
+  · cases ub <;> cases sb <;> cases aw <;> simp_all [attr, bind, Except.bind, pure, Except.pure, absRec]
+  · cases ub <;> cases sb <;> cases aw <;> simp_all [attr, bind, Except.bind, pure, Except.pure, absRec]
+
 end Ska.Gen.IW
